@@ -118,7 +118,9 @@ class Graph:
             paths.append(path)
         return paths, len(uncovered)
 
-    USE = ("transform", "rottransform", "query", "rotquery", "inverse", "bootfit", "serialize", "rotserialize")
+    # "rotfit" as a USE: what a rotator took from its model by reference must not follow the model into its next fit
+    # (seed C04f: compute() that leaves the preprocessor shared)
+    USE = ("transform", "rottransform", "rotfit", "query", "rotquery", "inverse", "bootfit", "serialize", "rotserialize")
     # "rotfit_other": the rotator is fitted again after its model was refitted on OTHER data (another rotation matrix,
     # other norms, signs, order) - a plain rotator refit on the unchanged model recomputes what it already holds and
     # cannot expose anything a call left behind (seeds C04c, C03e: a memoised inverse rotation matrix)
@@ -165,9 +167,9 @@ class Graph:
                     q.append(v)
         out = []
         # calls that are most likely to leave something behind come first (the quick tier does not reach every pair)
-        prio = ["rottransform", "transform", "bootfit", "query", "rotquery", "inverse", "serialize", "rotserialize"]
+        prio = ["rottransform", "transform", "rotfit", "bootfit", "query", "rotquery", "inverse", "serialize", "rotserialize"]
         kinds = sorted(by_kind, key=lambda k_: prio.index(k_) if k_ in prio else 99)
-        pairs = [(k, rk) for k in kinds for rk in self.RESET]
+        pairs = [(k, rk) for k in kinds for rk in self.RESET if not (k == "rotfit" and rk.startswith("rotfit"))]
         rounds = max(1, -(-n // len(pairs)))
         for rnd in range(rounds):
             for (k, rk) in pairs:
@@ -192,6 +194,10 @@ class Graph:
                     path += seg
                     # the very kind of call that was used before the reset, else the nearest answer of the same object
                     seg2 = None
+                    if a["kind"] == "rotfit":
+                        if rk in ("rotfit", "rotfit_other"):
+                            continue
+                        seg2 = self._bfs(seg[-1][2], lambda x, b: b["kind"] == "rottransform" and b.get("arg") == self.states[x]["r"].get("base"), 3)
                     if a["kind"] in ("transform", "rottransform"):
                         # first choice: the transform of what is then the training data (comparable with the stored scores)
                         def _training(x, b):
